@@ -445,6 +445,14 @@ static void check_section_step(cfg_t *ctx, int accepted)
 		}
 	}
 #endif
+#if defined(CHK_C17) && defined(WITH_PATH)
+	if (accepted && O->nvalues >= 1) {
+		unsigned at2 = dup >= 0 ? (unsigned)dup : ((O->flags & CFGF_MULTI) ? O->nvalues - 1 : 0);
+		cfg_t *s2 = cfg_opt_getnsec(O, at2);
+
+		V_ASSERT(s2 != NULL && s2->path == the_path, "[C17] a section entered by the parser resolves names through the context's search path");
+	}
+#endif
 #ifdef WITH_VALIDCB
 #ifdef CHK_C14
 	if (accepted || cb_valid_rc != 0)
